@@ -201,6 +201,11 @@ CrashBlk ==
      7 :> B(2, <<>>, 50, 0) @@                 \* A3
      8 :> B(5, <<>>, 50, 0)                    \* B4
 CrashBlocks == 1..8
+(* C07 family Long: one branch of 40 blocks, so that more blocks than any batch size of the block writer are   *)
+(* queued between two idle calls (the snapshot must still name a block that is on disk)                        *)
+LongTx == 201 :> T(<<In(1, 1)>>, <<O(30, 0, 1, 1), O(19, 99900000, 2, 2)>>)
+LongBlk == [b \in 1..40 |-> IF b = 1 THEN B(0, <<201>>, 50, FEE) ELSE B(b - 1, <<>>, 50, 0)]
+LongBlocks == 1..40
 (* C06 family C: undo data is keyed by height.  A2 spends X at height 122; the node reorganises to B, which    *)
 (* spends X at height 121 and has an EMPTY block at 122; branch C forks above B's spender and disconnects that *)
 (* empty block: whatever undo record is used for height 122 then must be B2's (empty), not A2's.               *)
